@@ -113,3 +113,41 @@ def shorten_vars(s):
         out.append(s[i])
         i += 1
     return ''.join(out)
+
+
+def fn_shape(fn, F):
+    """normalised structural fingerprint of a small arithmetic function: returns with their branch conditions, element
+    stores into named locals, and the one-iteration transfer of every named scalar assigned inside a loop.
+    Crate-specific constant prefixes are unified (SM2_/SM9_ -> SMx_) so that duplicated code can be compared."""
+    import re
+    P = Prov(fn, F, cut_loops=True)
+    cn = Canon(fn, P)
+    from .builder import select_conds
+    lines = []
+    for c, v in returns(fn, F, True):
+        lines.append('ret %s => %s' % (list(c), shorten_vars(v)))
+    named = [(i, l['name']) for i, l in enumerate(fn.locals) if l.get('name')]
+    for i, nm in named:
+        st = stores(fn, F, nm)
+        for a, b in st:
+            lines.append('store %s[%s] = %s' % (nm, shorten_vars(a), shorten_vars(b)))
+    loops = fn.sccs()
+    for comp in loops:
+        hdrs = [b for b in comp if any(p not in comp for p in fn.pred(b))]
+        if len(hdrs) != 1:
+            continue
+        latches = [p for p in fn.pred(hdrs[0]) if p in comp]
+        if len(latches) != 1:
+            continue
+        lb = latches[0]
+        for i, nm in named:
+            if any(b in comp and kind == 'full' for (b, _, kind) in P.defs.get(i, [])):
+                lines.append('loop %s\' = %s' % (nm, shorten_vars(cn.c(norm(P.local(i, lb, len(fn.blocks[lb]['stmts'])))))))
+        # exit conditions
+        for b in sorted(comp):
+            t = fn.blocks[b]['term']
+            if t['k'] == 'switch' and any(s not in comp for s in fn.succ(b)):
+                lines.append('exit on %s' % shorten_vars(cn.c(norm(P.operand(t['op'], b, len(fn.blocks[b]['stmts']))))))
+    txt = '\n'.join(lines)
+    txt = re.sub(r'\bSM[29]_', 'SMx_', txt)
+    return txt
